@@ -262,8 +262,15 @@ class JsonSchemaParser:
             else:
                 prop_schema = prop
             attname = prop_schema.get('x-var-name') or key
-            if not valid_attr(attname) or attname in attrs or hasattr(dict, attname):
-                attname = self.get_attname(attname, excludes=list(attrs))
+            if not valid_attr(attname) or attname in attrs or attname.startswith('_') \
+                    or hasattr(self.object_base_cls, attname):
+                # names that are not identifiers, are private (not a field), or collide with a declared field /
+                # an attribute of the base class (like dict.items): the property keeps its name as alias
+                excludes = list(attrs)
+                excludes.extend(n for n in dir(self.object_base_cls) if not n.startswith('_'))
+                attname = self.get_attname(attname, excludes=excludes) or 'value'
+                if attname in excludes or not valid_attr(attname):
+                    attname = self.get_attname('attr_' + attname, excludes=excludes)
             alias = None
             if attname != key:
                 alias = key
